@@ -1016,6 +1016,10 @@ func (vc *VC) phiVal(st *State, phi *ssa.Phi, b, from *ssa.BasicBlock) Val {
 }
 
 func (vc *VC) props() []string {
+	// the merged contract carries the properties of the inherited interface-level contract as well
+	if vc.effective != nil && len(vc.effective.Props) > 0 {
+		return vc.effective.Props
+	}
 	if vc.contract != nil {
 		return vc.contract.Props
 	}
